@@ -176,6 +176,7 @@ func (g *generator) buildMethod(genMethod *generatedMethod, context map[string]*
 		case method.ArgUseSource:
 			name := ctx.Name("source")
 			sourceID = xtype.VariableID(jen.Id(name))
+			sourceID.Owned = true
 			args = append(args, paramDecl(name, arg))
 		case method.ArgUseTarget:
 			name := ctx.Name("target")
